@@ -8,6 +8,13 @@ ob("HPseek", ["C16", "C01"], entry="h_HPseek", enforce="HPseek", overflow=True, 
 ob("HP_read", ["C16", "C01", "C20"], entry="h_HP_read", enforce="HP_read", overflow=True, **HF)
 ob("HP_write", ["C16", "C01", "C14", "C20"], entry="h_HP_write", enforce="HP_write", overflow=True, **HF)
 ob("Hread", ["C01", "C16", "C20"], entry="h_Hread", enforce="Hread", overflow=True, **HF)
+ob("Hseek", ["C01"], entry="h_Hseek", enforce="Hseek", rec=True, **HF)
+ob("Htell", ["C01"], entry="h_Htell", enforce="Htell", **HF)
+ob("Hwrite", ["C01", "C14", "C16", "C17", "C20"], entry="h_Hwrite", enforce="Hwrite", rec=True, overflow=True, **HF)
+ob("Htrunc", ["C01"], entry="h_Htrunc", enforce="Htrunc", **HF)
+ob("HPgetdiskblock", ["C01", "C02", "C16", "C17", "C20"], entry="h_HPgetdiskblock", enforce="HPgetdiskblock", overflow=True, **HF)
+ob("Hsetlength", ["C01", "C16", "C20"], entry="h_Hsetlength", enforce="Hsetlength", overflow=True, **HF)
+ob("HIextend_file", ["C16", "C17"], entry="h_HIextend_file", enforce="HIextend_file", overflow=True, **HF)
 
 prop("C01",
      residual="composition over histories (several handles, reopen, promotion followed by reads of old data, external file contents); HLconvert/HLcreate end-to-end; hbuffer.c",
